@@ -427,13 +427,22 @@ def _cat_jobs(oracle, tier, rows=CAT_ROWS, pools=(0, 2)):
         # (pool, who provides managers: 0 the probes / 1 the sinks with shared managers, depth)
         if oracle == "C20" and r in C20_EXCLUDED:
             continue
+        # provider 2 = late providers (the sinks keep manager requests until the operation "provide"); not under the C20 oracle, whose
+        # differential run legitimately sees different request traffic when getters re-trigger a pipe's check
+        late = oracle != "C20"
         if r in CAT_GENERIC:
             gq, gt = CAT_GENERIC_DEPTH.get(r, (4, 5))
             axes = [(pools[0], 0, gq)] if q else [(pools[0], 0, gt), (pools[-1], 1, gt)]
+            if late:
+                axes.append((pools[0], 2, gq - 1 if q else gt - 1))
         elif q:
             axes = [(pools[0], 0, d)] + [(p, 1, d - 1) for p in pools[1:]]
+            if late:
+                axes.append((pools[0], 2, d - 1))
         else:
             axes = [(pools[0], 0, d)] + [(p, 1, d) for p in pools[1:]] + [(pools[0], 1, d - 1)] + [(p, 0, d - 1) for p in pools[1:]]
+            if late:
+                axes.append((pools[0], 2, d - 1))
         for (pool, prov, depth) in axes:
             jobs.append(("pipex_cat", ["--row", r, "--oracle", oracle, "--pool", pool, "--prov", prov, "--depth", depth, "--deadline", 75 if q else 840]))
     return jobs
